@@ -25,7 +25,7 @@ ID = "C05"
 TABLES = ["frozenExcSetNames", "frozenExcDelNames", "hashCacheField"]
 PARALLEL = True
 EXHAUSTIVE = {"quick": False, "thorough": False}
-BUDGET_S = {"quick": 34, "thorough": 400}
+BUDGET_S = {"quick": 30, "thorough": 400}
 
 RULE = (
     "hierarchies = initbuild's random single-inheritance chains (depth<=3; attr.s/define/frozen/these/make_class; dict and "
@@ -34,7 +34,9 @@ RULE = (
     "below the last attrs class (dict or __slots__=()), field-less mixins (plain / attrs frozen / attrs mutable / defining "
     "__setattr__ or __delattr__) before or after the main base of any class, body-defined __setattr__/__delattr__ with and without "
     "auto_detect (overridden by frozen=True under attr.s; kept below hooked and frozen bases), "
-    "getstate_setstate on/off/default, auto_detect; streams: valid (80%), K05a shapes (custom definer first, 8%), malformed "
+    "getstate_setstate on/off/default, auto_detect; decorator-object histories (the attr.s/define/frozen/these decorator OBJECT of "
+    "a class was first applied to 1-2 other classes with/without own __getstate__+__setstate__/__setattr__/__hash__/__init__, "
+    "below object / the same bases / a slotted or dict attrs class -- harness-only: the model is a function of the class alone); streams: valid (80%), K05a shapes (custom definer first, 8%), malformed "
     "(frozen + on_setattr / custom __setattr__, incl. the init=False-without-default field, 12%). Per hierarchy several "
     "operation histories of length 1..6 (quick) / 1..8 (thorough) over {setattr, delattr, augmented assignment} x {every "
     "field (new value, the very object it holds, an equal object), unknown public/private name, the hash-cache name, the five "
@@ -142,6 +144,14 @@ def _decorate_hspec(rng, h, stream):
         if (cs["kind"] == "attrs" and cs.get("frozen") is True and cs.get("api") in ("attr.s", "these", "make_class")
                 and not cs.get("auto_detect") and rng.random() < 0.06):
             cs[rng.choice(["user_set", "user_del"])] = True
+    # decorator-object histories: the decorator of a class was first applied to 0-2 other classes
+    for cs in h["classes"]:
+        if cs["kind"] == "attrs" and cs.get("api") != "make_class" and rng.random() < 0.4:
+            cs["deco_hist"] = [{"own": rng.sample(["getstate", "setattr", "hash", "init"], rng.choice([0, 0, 1, 1, 2])),
+                                "base": rng.choice(["object", "object", "same", "slotted_attrs", "dict_attrs"]),
+                                "field": rng.random() < 0.5} for _ in range(rng.choice([1, 1, 2]))]
+            if cs.get("api") in ("attr.s", "these") and cs.get("auto_detect") is None and rng.random() < 0.4:
+                cs["auto_detect"] = True      # own methods of the earlier classes are then looked at
     ntail = rng.choice([0, 0, 0, 1, 1, 2])
     h["tail"] = [{"name": f"T{i}", "plain_slots": rng.random() < 0.4} for i in range(ntail)]
     # mixins
@@ -282,7 +292,7 @@ def gen_ops(case, rng, maxlen):
 
 
 def gen_cases(tier, rng):
-    n_h = 4600 if tier == "quick" else 120000
+    n_h = 4200 if tier == "quick" else 120000
     maxlen = 6 if tier == "quick" else 8
     per = 3 if tier == "quick" else 4
     for _ in range(n_h):
@@ -582,6 +592,7 @@ def dist(case, obs):
         "stream": case.get("stream"),
         "depth": len(h["classes"]), "tail": len(h.get("tail", [])),
         "mixins": sum(1 for cs in h["classes"] + h.get("tail", []) if cs.get("mixin")),
+        "deco_hist": sum(len(cs.get("deco_hist", [])) for cs in h["classes"]),
         "api": leaf.get("api"), "exc_root": case["excRoot"],
         "slots": case["init"]["run"]["cfg"]["slots"], "cache_hash": case["init"]["run"]["cfg"]["cacheHash"],
         "hasDict": case["hasDict"], "gs": case["gs"], "n_ops": len(case["ops"]),
@@ -631,7 +642,7 @@ def shrink(case):
         yield from remake(h2)
     for part in ("classes", "tail"):
         for i, cs in enumerate(h.get(part, [])):
-            for key in ("mixin", "user_set", "user_del", "getstate_setstate", "auto_detect"):
+            for key in ("deco_hist", "mixin", "user_set", "user_del", "getstate_setstate", "auto_detect"):
                 if cs.get(key) is not None and cs.get(key) is not False:
                     h2 = copy.deepcopy(h)
                     h2[part][i].pop(key, None)
